@@ -169,13 +169,46 @@ func c12ClaimedLength(e *E3, p *Prog, r *Result, f *Flow) {
 			if size == nil || !e.t.Is(size) || lenDerived(m, size, 0) || narrowBounded(m, size, 0) {
 				return
 			}
-			construct := fmt.Sprintf("%s in %s", what, p.FuncName(fn))
-			k := 1
-			for r.hasConstruct(rule, construct) {
-				k++
-				construct = fmt.Sprintf("%s #%d in %s", what, k, p.FuncName(fn))
+			// the site is named after the function that reads the length off
+			// the wire: when the size arrives as a parameter (the allocation was
+			// moved into a helper) the finding belongs to the callers
+			owners := []*ssa.Function{fn}
+			if prm, isParam := intRootNoVar(size).(*ssa.Parameter); isParam {
+				idx := -1
+				for i, q := range fn.Params {
+					if q == prm {
+						idx = i
+					}
+				}
+				var callers []*ssa.Function
+				for _, ed := range p.CallGraph().in[fn] {
+					if ed.Kind == "static" && f.Region[ed.Caller] && ed.Caller != fn && idx >= 0 {
+						callers = append(callers, ed.Caller)
+					}
+				}
+				if len(callers) > 0 {
+					sortFuncs(p, callers)
+					owners = callers
+				}
 			}
-			r.table(p, rule, construct, p.instrPos(in), false, "sized by a claimed length (bounded by the decode limit, but allocated before the data is read)")
+			seenOwner := map[*ssa.Function]bool{}
+			for _, owner := range owners {
+				if seenOwner[owner] {
+					continue
+				}
+				seenOwner[owner] = true
+				construct := fmt.Sprintf("%s in %s", what, p.FuncName(owner))
+				k := 1
+				for r.hasConstruct(rule, construct) {
+					k++
+					construct = fmt.Sprintf("%s #%d in %s", what, k, p.FuncName(owner))
+				}
+				detail := "sized by a claimed length (bounded by the decode limit, but allocated before the data is read)"
+				if owner != fn {
+					detail += "; the allocation itself is in " + p.FuncName(fn) + ", which receives the length as a parameter"
+				}
+				r.table(p, rule, construct, p.instrPos(in), false, detail)
+			}
 		}
 		for _, b := range fn.Blocks {
 			for _, in := range b.Instrs {
